@@ -194,6 +194,7 @@ type c12Outcome struct {
 	OverBudget bool  // step budget exceeded (case is discarded)
 	NT         bool
 	Labels     []string
+	SerialNote string // Part B: the model comparison failed but a serial order reproduces the result
 }
 
 func (o *c12Outcome) label(l string) { o.Labels = append(o.Labels, l) }
@@ -667,25 +668,29 @@ func c12StateShape(keysets []map[string]bool) (string, bool) {
 	return "", false
 }
 
-// c12Concurrent runs the concurrent phase on a prepared node machine (state pointer = parent of the
-// optional play block, every request assembled against the same model state) and applies the
-// end-state oracle.
-func c12Concurrent(nm *hx.NodeMachine, reqs []c12Req, pick c12Picker) c12Outcome {
-	var out c12Outcome
-	fail := func(format string, args ...interface{}) c12Outcome {
-		out.Err = fmt.Errorf(format+"; schedule: %s", append(args, hx.FormatSteps(out.Steps))...)
-		return out
-	}
+// c12Env is the prepared concurrent phase: every request assembled against the same model state.
+type c12Env struct {
+	nm       *hx.NodeMachine
+	reqs     []c12Req
+	runs     []*c12ReqRun
+	s        *hx.MState // model state before the concurrent phase (pointer state + pending)
+	h        int64      // ledger height
+	oldPool  []*pb.Transaction
+	playReq  int
+	A        []*pb.Transaction // admitted (set by modelOracle)
+	admitted map[string]bool
+}
+
+// c12Prepare assembles the requests on the node machine's current model state and verifies the
+// transactions (sequentially: VerifyTx is not part of the lock protocol).
+func c12Prepare(nm *hx.NodeMachine, reqs []c12Req) *c12Env {
 	m := nm.LM.M
-	st := nm.N.State
-	s := nm.PoolState()
-	h := m.Blocks[m.Tip].Height
-	oldPool := append([]*pb.Transaction{}, nm.Pool...)
-	runs := make([]*c12ReqRun, len(reqs))
-	playReq := -1
+	e := &c12Env{nm: nm, reqs: reqs, s: nm.PoolState(), h: m.Blocks[m.Tip].Height,
+		oldPool: append([]*pb.Transaction{}, nm.Pool...), playReq: -1}
+	e.runs = make([]*c12ReqRun, len(reqs))
 	for i, rq := range reqs {
 		r := &c12ReqRun{}
-		runs[i] = r
+		e.runs[i] = r
 		switch rq.Kind {
 		case "dotx":
 			if rq.Tx == nil {
@@ -693,7 +698,7 @@ func c12Concurrent(nm *hx.NodeMachine, reqs []c12Req, pick c12Picker) c12Outcome
 				continue
 			}
 			spec := *rq.Tx
-			tx, _ := nm.BuildOnModel(&spec, s)
+			tx, _ := nm.BuildOnModel(&spec, e.s)
 			if tx == nil {
 				r.skip = "preexec-failed"
 				continue
@@ -702,7 +707,7 @@ func c12Concurrent(nm *hx.NodeMachine, reqs []c12Req, pick c12Picker) c12Outcome
 				r.skip = "coinbase"
 				continue
 			}
-			if ok, verr := st.VerifyTx(hx.CloneTx(tx)); !ok || verr != nil {
+			if ok, verr := nm.N.State.VerifyTx(hx.CloneTx(tx)); !ok || verr != nil {
 				r.skip = "verify-refused"
 				continue
 			}
@@ -718,41 +723,162 @@ func c12Concurrent(nm *hx.NodeMachine, reqs []c12Req, pick c12Picker) c12Outcome
 			}
 		case "play":
 			b := rq.Block
-			if playReq >= 0 || b <= 0 || b >= len(m.Blocks) || !m.Blocks[b].Stored || m.Blocks[b].Parent != nm.Ptr || !nm.Valid[b] || nm.States[b] == nil {
+			if e.playReq >= 0 || b <= 0 || b >= len(m.Blocks) || !m.Blocks[b].Stored || m.Blocks[b].Parent != nm.Ptr || !nm.Valid[b] || nm.States[b] == nil {
 				r.skip = "bad-block"
 				continue
 			}
-			playReq = i
+			e.playReq = i
 		default:
 			r.skip = "unknown-kind"
 		}
 	}
+	return e
+}
+
+// body returns the function that performs request i against the real state machine.
+func (e *c12Env) body(i int) func() {
+	rq, r := e.reqs[i], e.runs[i]
+	st := e.nm.N.State
+	switch {
+	case r.skip != "":
+		return func() { r.finished = true }
+	case rq.Kind == "dotx":
+		sub := hx.CloneTx(r.tx)
+		return func() {
+			r.err = st.DoTx(sub)
+			r.finished = true
+		}
+	case rq.Kind == "select":
+		need, _ := new(big.Int).SetString(rq.Need, 10)
+		addr := hx.Ring[rq.Addr].Address
+		return func() {
+			r.ins, r.lockKeys, r.total, r.err = st.SelectUtxos(addr, need, true, false)
+			r.finished = true
+		}
+	default:
+		id := e.nm.LM.M.Blocks[rq.Block].ID
+		return func() {
+			r.err = st.PlayAndRepost(id, false, false)
+			r.finished = true
+		}
+	}
+}
+
+// c12Result is what the requests left behind, in a form comparable between nodes.
+type c12Result struct {
+	Admitted string // sorted txids whose DoTx returned nil (with multiplicity)
+	Played   string
+	Obs      map[string]string
+	Pool     string
+	Obs2     map[string]string // after reopen
+	Pool2    string
+}
+
+func (e *c12Env) rawKeys() []string {
+	ks := make([]string, 0, len(e.nm.KeyUniv))
+	for k := range e.nm.KeyUniv {
+		ks = append(ks, k)
+	}
+	sort.Strings(ks)
+	return ks
+}
+
+func (e *c12Env) observe() (map[string]string, string) {
+	obs := hx.ObserveState(e.nm.N, e.nm.AddrUniv, e.rawKeys())
+	cur, err := e.nm.N.State.GetUnconfirmedTx(false)
+	var ids []string
+	for _, t := range cur {
+		ids = append(ids, hx.Hex8(t.Txid))
+	}
+	sort.Strings(ids)
+	pool := strings.Join(ids, ",")
+	if err != nil {
+		pool = "err:" + err.Error()
+	}
+	return obs, pool
+}
+
+// collect gathers the result (it reopens the node: memory == disk is part of the result).
+func (e *c12Env) collect() (*c12Result, error) {
+	res := &c12Result{}
+	var ids []string
+	for i, r := range e.runs {
+		if e.reqs[i].Kind == "dotx" && r.skip == "" && r.err == nil {
+			ids = append(ids, hx.Hex8(r.tx.Txid))
+		}
+	}
+	sort.Strings(ids)
+	res.Admitted = strings.Join(ids, ",")
+	res.Played = fmt.Sprint(e.playReq >= 0 && e.runs[e.playReq].err == nil)
+	res.Obs, res.Pool = e.observe()
+	if err := e.nm.N.Reopen(); err != nil {
+		return res, fmt.Errorf("reopen: %v", err)
+	}
+	res.Obs2, res.Pool2 = e.observe()
+	return res, nil
+}
+
+func (a *c12Result) equal(b *c12Result) bool {
+	return a.Admitted == b.Admitted && a.Played == b.Played && a.Pool == b.Pool && a.Pool2 == b.Pool2 &&
+		hx.DiffObs(a.Obs, b.Obs) == "" && hx.DiffObs(a.Obs2, b.Obs2) == ""
+}
+
+// c12SerialExplains: is there a one-at-a-time order of the same requests that leaves, on a replica
+// that went through the same sequential prefix, exactly the result the concurrent run left? This
+// is the statement itself; it is consulted when the (cheaper, stronger) model comparison fails, so
+// that a defect of the sequential code - which a one-at-a-time order reproduces - is not blamed on
+// the interleaving.
+func c12SerialExplains(prefix []hx.NOp, reqs []c12Req, got *c12Result, fs *hx.FindingSet) (bool, []int) {
+	var found []int
+	var perm func(acc []int, used uint)
+	perm = func(acc []int, used uint) {
+		if found != nil {
+			return
+		}
+		if len(acc) == len(reqs) {
+			nm, err := hx.NewNodeMachine(hx.DefaultOpts(), fs)
+			if err != nil {
+				return
+			}
+			defer nm.Close()
+			for _, op := range prefix {
+				nm.Apply(op)
+			}
+			e := c12Prepare(nm, reqs)
+			for _, i := range acc {
+				e.body(i)()
+			}
+			hx.WaitAsync()
+			res, err := e.collect()
+			if err == nil && res.equal(got) {
+				found = append([]int{}, acc...)
+			}
+			return
+		}
+		for i := range reqs {
+			if used&(1<<uint(i)) == 0 {
+				perm(append(acc, i), used|1<<uint(i))
+			}
+		}
+	}
+	perm(nil, 0)
+	return found != nil, found
+}
+
+// c12Concurrent runs the concurrent phase on a prepared node machine (state pointer = parent of the
+// optional play block, every request assembled against the same model state) and applies the
+// end-state oracle. prefix (the operations that built the node) enables the serial-replica check.
+func c12Concurrent(nm *hx.NodeMachine, prefix []hx.NOp, reqs []c12Req, pick c12Picker, fs *hx.FindingSet) c12Outcome {
+	var out c12Outcome
+	fail := func(format string, args ...interface{}) c12Outcome {
+		out.Err = fmt.Errorf(format+"; schedule: %s", append(args, hx.FormatSteps(out.Steps))...)
+		return out
+	}
+	e := c12Prepare(nm, reqs)
+	runs := e.runs
 	sch := hx.NewSched()
 	for i := range reqs {
-		rq, r := reqs[i], runs[i]
-		switch {
-		case r.skip != "":
-			sch.Spawn(func() { r.finished = true })
-		case rq.Kind == "dotx":
-			sub := hx.CloneTx(r.tx)
-			sch.Spawn(func() {
-				r.err = st.DoTx(sub)
-				r.finished = true
-			})
-		case rq.Kind == "select":
-			need, _ := new(big.Int).SetString(rq.Need, 10)
-			addr := hx.Ring[rq.Addr].Address
-			sch.Spawn(func() {
-				r.ins, r.lockKeys, r.total, r.err = st.SelectUtxos(addr, need, true, false)
-				r.finished = true
-			})
-		case rq.Kind == "play":
-			id := m.Blocks[rq.Block].ID
-			sch.Spawn(func() {
-				r.err = st.PlayAndRepost(id, false, false)
-				r.finished = true
-			})
-		}
+		sch.Spawn(e.body(i))
 	}
 	verifhook.SetYield(sch.Yield)
 	verifhook.SetBeforeLock(sch.BeforeLock)
@@ -792,7 +918,39 @@ func c12Concurrent(nm *hx.NodeMachine, reqs []c12Req, pick c12Picker) c12Outcome
 	}
 	out.NT = c12RegionsOverlap(sch.Steps, len(reqs), share)
 
-	// --- the admitted set ---
+	merr := e.modelOracle(&out)
+	serr := e.selectorOracle(&out)
+	got, cerr := e.collect() // reopens the node
+	if cerr != nil {
+		return fail("%v", cerr)
+	}
+	if merr == nil {
+		if err := nm.CheckState(); err != nil {
+			merr = fmt.Errorf("after reopen (memory != disk): %v", err)
+		}
+	}
+	if merr != nil {
+		if ok, order := c12SerialExplains(prefix, reqs, got, fs); ok {
+			// the sequential code itself deviates from the model here; the concurrent run did what
+			// a one-at-a-time order does, which is all C12 claims
+			out.label("model-mismatch-reproduced-by-serial-order(not-C12)")
+			out.SerialNote = fmt.Sprintf("serial order %v of the same requests leaves the same result; model comparison said: %v", order, merr)
+		} else {
+			return fail("%v", merr)
+		}
+	}
+	if serr != nil {
+		return fail("%v", serr)
+	}
+	return out
+}
+
+// modelOracle compares the result with the reference model: the admitted set applies in some
+// one-at-a-time order, every observable equals model + admitted set, a play evicts only what it may.
+func (e *c12Env) modelOracle(out *c12Outcome) error {
+	nm, reqs, runs, s, h, oldPool, playReq := e.nm, e.reqs, e.runs, e.s, e.h, e.oldPool, e.playReq
+	m := nm.LM.M
+	st := nm.N.State
 	var A []*pb.Transaction
 	admitted := map[string]bool{}
 	refused := 0
@@ -805,11 +963,12 @@ func c12Concurrent(nm *hx.NodeMachine, reqs []c12Req, pick c12Picker) c12Outcome
 			continue
 		}
 		if admitted[string(r.tx.Txid)] {
-			return fail("transaction %s was admitted twice (two DoTx calls of the same transaction returned nil)", hx.Hex8(r.tx.Txid))
+			return fmt.Errorf("transaction %s was admitted twice (two DoTx calls of the same transaction returned nil)", hx.Hex8(r.tx.Txid))
 		}
 		admitted[string(r.tx.Txid)] = true
 		A = append(A, r.tx)
 	}
+	e.A, e.admitted = A, admitted
 	if refused > 0 {
 		out.label("dotx-refused")
 	}
@@ -817,7 +976,6 @@ func c12Concurrent(nm *hx.NodeMachine, reqs []c12Req, pick c12Picker) c12Outcome
 		out.label("dotx-admitted>=2")
 	}
 	played := playReq >= 0 && runs[playReq].err == nil
-	var blockTxs []*pb.Transaction
 	if !played {
 		order, ok := c12ValidOrder(s, A, h)
 		if !ok {
@@ -825,7 +983,7 @@ func c12Concurrent(nm *hx.NodeMachine, reqs []c12Req, pick c12Picker) c12Outcome
 			for _, t := range A {
 				ds = append(ds, hx.Hex8(t.Txid)+" "+hx.DescribeTx(t))
 			}
-			return fail("the admitted transactions %s do not apply in any one-at-a-time order on the state before the concurrent phase (mutually conflicting admission): %s", c12TxIDs(A), strings.Join(ds, " | "))
+			return fmt.Errorf("the admitted transactions %s do not apply in any one-at-a-time order on the state before the concurrent phase (mutually conflicting admission): %s", c12TxIDs(A), strings.Join(ds, " | "))
 		}
 		if playReq >= 0 {
 			// a failed play needs a serial explanation: the block does not apply on top of the
@@ -853,17 +1011,17 @@ func c12Concurrent(nm *hx.NodeMachine, reqs []c12Req, pick c12Picker) c12Outcome
 				}
 			}
 			if !explained {
-				return fail("PlayAndRepost(%s) failed (%v) although the block applies on the pending state of every one-at-a-time order", m.Blocks[reqs[playReq].Block].Label, runs[playReq].err)
+				return fmt.Errorf("PlayAndRepost(%s) failed (%v) although the block applies on the pending state of every one-at-a-time order", m.Blocks[reqs[playReq].Block].Label, runs[playReq].err)
 			}
 		}
 		nm.Pool = append(append([]*pb.Transaction{}, oldPool...), order...)
 	} else {
 		out.label("play-succeeded")
 		b := reqs[playReq].Block
-		blockTxs = nm.BlockTxs[b]
+		blockTxs := nm.BlockTxs[b]
 		cur, err := st.GetUnconfirmedTx(false)
 		if err != nil {
-			return fail("GetUnconfirmedTx after the play: %v", err)
+			return fmt.Errorf("GetUnconfirmedTx after the play: %v", err)
 		}
 		allowed := map[string]*pb.Transaction{}
 		for _, t := range oldPool {
@@ -880,13 +1038,13 @@ func c12Concurrent(nm *hx.NodeMachine, reqs []c12Req, pick c12Picker) c12Outcome
 		for _, t := range cur {
 			id := string(t.Txid)
 			if allowed[id] == nil {
-				return fail("after the play the pool holds %s which was neither pending before nor admitted", hx.Hex8(t.Txid))
+				return fmt.Errorf("after the play the pool holds %s which was neither pending before nor admitted", hx.Hex8(t.Txid))
 			}
 			if inBlock[id] {
-				return fail("after the play transaction %s of the played block is still pending", hx.Hex8(t.Txid))
+				return fmt.Errorf("after the play transaction %s of the played block is still pending", hx.Hex8(t.Txid))
 			}
 			if keptSet[id] {
-				return fail("after the play the pool lists %s twice", hx.Hex8(t.Txid))
+				return fmt.Errorf("after the play the pool lists %s twice", hx.Hex8(t.Txid))
 			}
 			keptSet[id] = true
 		}
@@ -899,7 +1057,7 @@ func c12Concurrent(nm *hx.NodeMachine, reqs []c12Req, pick c12Picker) c12Outcome
 		}
 		order, ok := c12ValidOrder(nm.States[b], kept, h)
 		if !ok {
-			return fail("after the play the pending transactions %s do not apply in any order on the block state", c12TxIDs(kept))
+			return fmt.Errorf("after the play the pending transactions %s do not apply in any order on the block state", c12TxIDs(kept))
 		}
 		post := nm.States[b].Clone()
 		pending := map[string]bool{}
@@ -943,7 +1101,7 @@ func c12Concurrent(nm *hx.NodeMachine, reqs []c12Req, pick c12Picker) c12Outcome
 				continue
 			}
 			if !legit[string(t.Txid)] {
-				return fail("admitted transaction %s is neither pending nor in the played block although it neither conflicts with the block nor depends on an evicted transaction (lost admission): %s", hx.Hex8(t.Txid), hx.DescribeTx(t))
+				return fmt.Errorf("admitted transaction %s is neither pending nor in the played block although it neither conflicts with the block nor depends on an evicted transaction (lost admission): %s", hx.Hex8(t.Txid), hx.DescribeTx(t))
 			}
 			out.label("admitted-then-evicted-by-play")
 		}
@@ -956,15 +1114,23 @@ func c12Concurrent(nm *hx.NodeMachine, reqs []c12Req, pick c12Picker) c12Outcome
 		nm.Pool = order
 	}
 	if err := nm.CheckState(); err != nil {
-		return fail("after the concurrent phase (admitted %s, play ok=%v): %v", c12TxIDs(A), played, err)
+		return fmt.Errorf("after the concurrent phase (admitted %s, play ok=%v): %v", c12TxIDs(A), played, err)
 	}
+	return nil
+}
 
-	// --- selectors ---
+// selectorOracle: what locking selections returned.
+func (e *c12Env) selectorOracle(out *c12Outcome) error {
+	nm, reqs, runs, s, h, playReq := e.nm, e.reqs, e.runs, e.s, e.h, e.playReq
+	A, admitted := e.A, e.admitted
+	played := playReq >= 0 && runs[playReq].err == nil
+	var blockTxs []*pb.Transaction
 	univ := map[string]*hx.UTXO{}
 	for k, u := range s.U {
 		univ[k] = u
 	}
 	if played {
+		blockTxs = nm.BlockTxs[reqs[playReq].Block]
 		for k, u := range nm.States[reqs[playReq].Block].U {
 			univ[k] = u
 		}
@@ -998,26 +1164,26 @@ func c12Concurrent(nm *hx.NodeMachine, reqs []c12Req, pick c12Picker) c12Outcome
 		for _, in := range r.ins {
 			k := hx.UKey(string(in.FromAddr), in.RefTxid, in.RefOffset)
 			if j, dup := handed[k]; dup {
-				return fail("output %s was handed to two locking selections (requests %d and %d)", k, j, i)
+				return fmt.Errorf("output %s was handed to two locking selections (requests %d and %d)", k, j, i)
 			}
 			handed[k] = i
 			u := univ[k]
 			if u == nil || u.Addr != addr || string(in.FromAddr) != addr {
-				return fail("SelectUtxos(%s) returned %s which is not an output of that address in any serial order", shortAddrC12(addr), k)
+				return fmt.Errorf("SelectUtxos(%s) returned %s which is not an output of that address in any serial order", shortAddrC12(addr), k)
 			}
 			if u.Frozen == -1 || u.Frozen > h {
-				return fail("SelectUtxos returned the frozen output %s (frozen until %d, ledger height %d)", k, u.Frozen, h)
+				return fmt.Errorf("SelectUtxos returned the frozen output %s (frozen until %d, ledger height %d)", k, u.Frozen, h)
 			}
 			if !bytes.Equal(u.Amount.Bytes(), in.Amount) {
-				return fail("SelectUtxos returned %s with amount %x, the output has %s", k, in.Amount, u.Amount)
+				return fmt.Errorf("SelectUtxos returned %s with amount %x, the output has %s", k, in.Amount, u.Amount)
 			}
 			sum.Add(sum, u.Amount)
 		}
 		if r.total == nil || sum.Cmp(r.total) != 0 {
-			return fail("SelectUtxos total %v differs from the sum %s of the returned outputs", r.total, sum)
+			return fmt.Errorf("SelectUtxos total %v differs from the sum %s of the returned outputs", r.total, sum)
 		}
 		if sum.Cmp(need) < 0 {
-			return fail("SelectUtxos succeeded with total %s < need %s", sum, need)
+			return fmt.Errorf("SelectUtxos succeeded with total %s < need %s", sum, need)
 		}
 	}
 	for i, r := range runs {
@@ -1026,7 +1192,7 @@ func c12Concurrent(nm *hx.NodeMachine, reqs []c12Req, pick c12Picker) c12Outcome
 		}
 		out.label("select-failed")
 		if r.err != utxo.ErrNoEnoughUTXO {
-			return fail("SelectUtxos failed with %v", r.err)
+			return fmt.Errorf("SelectUtxos failed with %v", r.err)
 		}
 		// least amount a serial order can leave for this selector: everything the other successful
 		// selectors locked and everything the admitted / played transactions spent is gone
@@ -1043,18 +1209,10 @@ func c12Concurrent(nm *hx.NodeMachine, reqs []c12Req, pick c12Picker) c12Outcome
 			left.Add(left, u.Amount)
 		}
 		if left.Cmp(need) >= 0 {
-			return fail("SelectUtxos(%s, need %s) failed with 'no enough money' although in every serial order at least %s stays selectable", shortAddrC12(addr), need, left)
+			return fmt.Errorf("SelectUtxos(%s, need %s) failed with 'no enough money' although in every serial order at least %s stays selectable", shortAddrC12(addr), need, left)
 		}
 	}
-
-	// --- memory == disk ---
-	if err := nm.N.Reopen(); err != nil {
-		return fail("reopen: %v", err)
-	}
-	if err := nm.CheckState(); err != nil {
-		return fail("after reopen (admitted %s, play ok=%v): %v", c12TxIDs(A), played, err)
-	}
-	return out
+	return nil
 }
 
 func shortAddrC12(a string) string {
@@ -1092,7 +1250,7 @@ func runC12StateWith(tr c12StateTrace, fs *hx.FindingSet, pick c12Picker) (c12Ou
 	if len(tr.Reqs) == 0 || len(tr.Reqs) > 8 {
 		return c12Outcome{}, fmt.Errorf("bad scenario: %d requests", len(tr.Reqs))
 	}
-	out := c12Concurrent(nm, tr.Reqs, pick)
+	out := c12Concurrent(nm, tr.Prefix, tr.Reqs, pick, fs)
 	if out.Wedged {
 		return out, fmt.Errorf("harness wedged (inconclusive)")
 	}
@@ -1622,6 +1780,7 @@ func TestC12(t *testing.T) {
 		return
 	}
 	cfg := c12PrefixCfg()
+	serialNotes := 0
 	c.Check(t, "state-schedules", hx.N(500, 12000), func(cs *hx.Case) {
 		rt := cs.RT()
 		nm, err := hx.NewNodeMachine(hx.DefaultOpts(), fs)
@@ -1630,11 +1789,13 @@ func TestC12(t *testing.T) {
 		}
 		defer nm.Close()
 		prefixOK := true
+		var prefix []hx.NOp
 		exec := func(op hx.NOp) {
 			if !prefixOK {
 				return
 			}
 			cs.Op(c12StateTrace{Prefix: []hx.NOp{op}})
+			prefix = append(prefix, op)
 			if err := c12ApplyPrefix(nm, op); err != nil {
 				// a sequential failure is not C12's business (C01/C02/C03 own it)
 				prefixOK = false
@@ -1696,7 +1857,7 @@ func TestC12(t *testing.T) {
 		}
 		cs.Op(c12StateTrace{Reqs: reqs})
 		pick, mode := c12RapidPicker(rt, len(reqs), 60)
-		out := c12Concurrent(nm, reqs, pick)
+		out := c12Concurrent(nm, prefix, reqs, pick, fs)
 		cs.Op(c12StateTrace{Sched: c12SchedOf(out.Steps)})
 		if out.Wedged {
 			t.Fatalf("harness wedged (inconclusive): %s", hx.FormatSteps(out.Steps))
@@ -1707,6 +1868,13 @@ func TestC12(t *testing.T) {
 		}
 		if out.Err != nil {
 			cs.Failf("%v", out.Err)
+		}
+		if out.SerialNote != "" {
+			serialNotes++
+			if serialNotes <= 2 {
+				b, _ := json.Marshal(cs.Trace)
+				t.Logf("C12 note (not a C12 violation): %s; trace %s", out.SerialNote, b)
+			}
 		}
 		cs.Label(mode)
 		cs.Label("family-" + fam)
